@@ -8,7 +8,11 @@ namespace Txdbus.Bus
 /-- A connection, identified by the number `k` of its unique name `":1.k"`. -/
 abbrev Conn := Nat
 
-/-- A well-known bus name (abstract; any number of them). -/
+/-- A well-known bus name (abstract; any number of them).  As a REQUESTED name it may be any valid
+well-known name - the built-in bus even grants `org.freedesktop.DBus` itself (observed, not flagged:
+DESIGN section 13) and `GetNameOwner` then names the requester.  As the DESTINATION of a message that
+one string never reaches the lookup (`Bus.messageReceived` answers such messages itself): a message
+addressed to it is `HStep.sendBus`, never `HStep.send _ (.wellKnown n)`. -/
 abbrev Name := Nat
 
 /-- One step of a history. -/
@@ -24,7 +28,9 @@ inductive Op where
   deriving DecidableEq, Repr
 
 /-- A destination name as the bus reads it in `msg.destination` / the argument of GetNameOwner
-(set and non-empty; the empty string and the bus's own name are handled before the lookup, C14). -/
+(set and non-empty).  For `msg.destination` the string `org.freedesktop.DBus` is excluded - see
+`HStep.sendBus` - also when a connection has requested (and been granted) that name; the empty
+destination is a broadcast (C14).  For GetNameOwner every non-empty name is a `Dest`. -/
 inductive Dest where
   | unique (k : Conn)      -- the string ":1.k" exactly as `':1.%d' % k` writes it
   | foreign                -- any other string that starts with ':' (":1.01", ":2.1", ":1.1a"): never handed out
@@ -37,6 +43,8 @@ inductive HStep where
   | op (o : Op)                  -- a name operation / connect / disconnect / other traffic
   | send (c : Conn) (d : Dest)   -- c sends a message addressed to d (not to the bus): `Bus.sendMessage` resolves d
   | ask (c : Conn) (d : Dest)    -- GetNameOwner(d) sent by c, for ANY name (unique names included)
+  | sendBus (c : Conn)           -- c sends a message whose destination is `org.freedesktop.DBus`: answered by the bus,
+                                 -- `Bus.messageReceived` does not call `sendMessage` for it - whoever was granted that name
   deriving DecidableEq, Repr
 
 end Txdbus.Bus
